@@ -1,6 +1,7 @@
 from collections.abc import Iterable, Sequence
 from typing import Any
 
+from .policy import _is_strict, match_resource
 from .policy import evaluate as evaluate_policy
 from .policyset import decide as decide_policyset
 
@@ -127,15 +128,21 @@ def compile(policy: dict[str, Any]) -> Any:
         candidates.sort(key=lambda r: order.get(id(r), 0))
 
         # Put candidates into buckets and PICK ONLY the most specific non-empty bucket
+        # A bucket can be picked only if one of its rules actually matches the resource
+        # target; otherwise a rule aimed at another id/attrs would shadow broader rules.
         buckets: list[list[dict[str, Any]]] = [[], [], [], []]
+        matched = [False, False, False, False]
+        strict = True if _is_strict(env) else None
         for r in candidates:
             cat = _categorize(r, res_type)
             if cat is None:
                 continue
             buckets[cat].append(r)
+            if not matched[cat] and match_resource(r.get("resource") or {}, res, strict=strict):
+                matched[cat] = True
         selected: list[dict[str, Any]] = []
         for i in range(4):
-            if buckets[i]:
+            if buckets[i] and matched[i]:
                 selected = buckets[i]
                 break
 
